@@ -81,6 +81,13 @@ def it_two(x):
     for e in i2:
         s = s + str(e) + ' '
     print('it', s)
+def g_fail(n):
+    for i in range(n):
+        yield 20 + i
+    raise ValueError
+def g_watch(x, n):
+    for i in range(n):
+        yield len(x)
 SEEN = set()
 SEENL = []
 def k_set(x):
@@ -166,6 +173,13 @@ def list_ops(full):
         for y in vs if full else ('b', 'c'):
             add('extend-var', '%s.extend(%s)' % (x, y), x)
         add('extend-list', '%s.extend([5, 6])' % x, x)
+        # an iterable that fails part way leaves what it produced so far in the list; one that looks at the list sees it grow item by item
+        add('extend-failing-iterable', '%s.extend(g_fail(2))' % x, x)
+        add('extend-observing-iterable', '%s.extend(g_watch(%s, 3))' % (x, x), x)
+        add('iadd-failing-iterable', '%s += g_fail(2)' % x, x)
+        add('iadd-observing-iterable', '%s += g_watch(%s, 2)' % (x, x), x)
+        add('setslice-failing-iterable', '%s[1:2] = g_fail(2)' % x, x)
+        add('setslice-observing-iterable', '%s[0:1] = g_watch(%s, 2)' % (x, x), x)
         add('extend-nonlist', '%s.extend((5, 6))' % x, x, True, True)
         if full:
             add('extend-nonlist', '%s.extend(range(2))' % x, x, True, True)
